@@ -452,6 +452,41 @@ def check(ctx):
                    f"the aggregation raises with USE_NUMBA on and succeeds with it off",
                    clause="the same values ... with USE_NUMBA switched on as with it switched off")
     ctx.count("generic_numba statistics judged for arm unification", n_un, 8)
+    # NA-prop: Numba's own implementation of np.median (a selection algorithm on the raw values) does not propagate NaN, NumPy's
+    # does: for a group that keeps its missing values the compiled kernel returns a number, the Python kernel NaN.  (Numba's
+    # sum / mean / std / var / min / max propagate NaN arithmetically or by comparison, as NumPy's do.)  A helper whose
+    # statistic is NaN-blind under Numba must therefore leave the compiled path whenever missing values are kept and present:
+    # an assignment of the Python implementation to the kernel variable under `not drop_na` and `<column>.is_na().any()`.
+    ctx.rule("NA-prop", "a statistic that is NaN-blind under Numba reaches the compiled kernel only when no missing value is kept")
+    ctx.trust("Numba's np.median / np.nanmedian / np.percentile / np.quantile do not propagate NaN the way NumPy's do (numba docs: supported NumPy features)")
+    NAN_BLIND = {"numpy.median", "numpy.percentile", "numpy.quantile"}
+    n_np = 0
+    for h in A.HELPERS:
+        g = A.group_form(repo, repo.fn(f"{A.AGG}.{h}"))
+        if not any(nb == "generic_numba" for _, nb, _ in g["pairs"]) or not any(st in NAN_BLIND for st, _ in g["stat"]):
+            continue
+        n_np += 1
+        clo = g["closure"]
+        pyname = next(py for py, nb, _ in g["pairs"] if nb == "generic_numba")
+        fvar = norm(g["call"].func) if isinstance(g["call"].func, ast.Name) else None
+        escapes = []
+        for a_ in [n for n in body_nodes(clo.node) if isinstance(n, ast.Assign) and len(n.targets) == 1 and isinstance(n.targets[0], ast.Name)
+                   and n.targets[0].id == fvar]:
+            v = a_.value
+            is_py = (isinstance(v, ast.Call) and isinstance(v.func, ast.Name) and v.func.id == pyname) or (isinstance(v, ast.Name) and v.id == pyname) \
+                or (isinstance(v, ast.Subscript) and isinstance(v.slice, ast.Constant) and v.slice.value == 0)
+            if not is_py:
+                continue
+            ft = facts_at(clo, a_)
+            keeps = any((k == "F" and t == "drop_na") or (k == "T" and t == "not drop_na") for k, t in ft)
+            if keeps:
+                escapes.append(a_)
+        ctx.ob("NA-prop", clo, f"{h}: {[st for st, _ in g['stat']][0]} leaves the compiled path when missing values are kept", escapes[0] if escapes else g["call"], bool(escapes),
+               "with drop_na false (and missing values present) the Python kernel is used" if escapes else
+               f"{[st for st, _ in g['stat']][0]} compiled by Numba does not propagate NaN: with drop_na=False a group [nan, 2, 3] gives 3.0 from the compiled "
+               f"kernel and NaN from the Python kernel, and nothing takes the helper off the compiled path in that case",
+               clause="the same values, the same missing-value positions ... with USE_NUMBA switched on as with it switched off")
+    ctx.count("helpers whose statistic is NaN-blind under Numba", n_np, 1)
     isn = repo.fn(f"{A.AGG}.is_na_numba")
     ok = any(norm(c.func) == "is_na_item_numba" for _, c in calls_in(isn))
     ctx.ob("SIB-9", isn, "is_na_numba applies is_na_item_numba element-wise", isn.node, ok, "wired" if ok else "is_na_numba does not use the overload", nontrivial=False)
